@@ -522,7 +522,9 @@ func (lndb *LevelNodeDB) Iterate(ctx context.Context, handler NodeDBIteratorHand
 	if err != nil {
 		return err
 	}
-	if p != c && !lndb.isCurrentPersistent() { // Why is it skipped when current is PNodeDB?
+	if p != c {
+		// every node GetNode can find is iterated: skipping the lower level when the current one is
+		// persistent hid nodes from MergeDB / MergeState
 		return p.Iterate(ctx, handler)
 	}
 	return nil
